@@ -52,7 +52,7 @@ func drawNet(r *simkit.Run, prof string) *NetCfg {
 		Diff:            DiffCfg{NoRetarget: true, PowLimit: lim, PowLimitBits: 0x207fffff, TimespanS: 14 * 24 * 3600, SpacingS: 600, Factor: 4, MinDiffTimeS: 1200},
 		Maturity:        int32(simkit.Range(c, 1, 6, "maturity")),
 		BIP34:           int32(simkit.Range(c, 1, 4, "bip34")),
-		BIP65:           int32(simkit.Range(c, 1, 4, "bip65")),
+		BIP65:           int32(simkit.Range(c, 1, 10, "bip65")),
 		BIP66:           int32(simkit.Range(c, 1, 4, "bip66")),
 		SubsidyInterval: []int32{150, 10, 3}[c.Intn(3, "halving")],
 		Window:          8, Threshold: 6,
